@@ -57,6 +57,13 @@ func scriptStyleInput(cs *core.Case, env *Env) string {
 			b.WriteString("<b>" + mg.next(r) + "</b>")
 			continue
 		}
+		if r.Intn(12) == 0 {
+			// markup declarations whose text spells a script element through character references: written
+			// back undecoded-then-decoded they would become one
+			b.WriteString(gen.Pick(r, []string{"<![if !IE]&gt;&lt;script&gt;alert(1)&lt;/script&gt;<![endif]>", "<![if &gt;&lt;script&gt;alert(1)&lt;/script&gt;]>", "<!DOCTYPE html &quot;&gt;&lt;script&gt;alert(1)&lt;/script&gt;>",
+				"<!--&gt;&lt;style&gt;x{}&lt;/style&gt;-->", "<?pi &gt;&lt;script&gt;alert(1)&lt;/script&gt;?>", "<![CDATA[&gt;&lt;script&gt;1&lt;/script&gt;]]>", "<!DOCTYPE html&gt;&lt;style&gt;>"}))
+			continue
+		}
 		name := gen.Pick(r, []string{"script", "style", "SCRIPT", "Style", "sCrIpT", "STYLE", "scrİpt", "ſcript", "ſtyle", "sKript", "script\x00", "scripts", "xscript", "style2", "scr\xffipt", "sty\xffle", "\xffscript", "x:script", "svg:style"})
 		attrs := gen.Pick(r, []string{"", "", " type=\"text/javascript\"", " src=http://evil.example/x.js", " x", " id=a class=b", "\n", "/x", " type=text/css media=all", " href=x",
 			" type=\"application/json\"", " type=application/ld+json", " type=module", " type=\"text/template\"", " type=text/plain", " type=\"\"", " TYPE=Application/JSON id=data", " type=importmap", " type=speculationrules",
@@ -166,7 +173,7 @@ func runC05(ctx *core.Ctx) {
 	docWorkload(ctx, spec.GenOpts{Styles: true, ScriptStyle: true}, ctx.N(2000, 40000), ctx.N(150, 400), 0, nil, in, c05Judge)
 	// fixed worst-case policies with the piece strings
 	worst := [][]spec.Op{
-		{{K: spec.KNew}, {K: spec.KAllowElements, Names: []string{"script", "style", "b"}}, {K: spec.KAllowNoAttrs, Scope: "els", Names: []string{"script", "style"}},
+		{{K: spec.KNew}, {K: spec.KAllowElements, Names: []string{"script", "style", "b", "html", "body"}}, {K: spec.KComments}, {K: spec.KAllowNoAttrs, Scope: "els", Names: []string{"script", "style"}},
 			{K: spec.KAllowAttrs, Attrs: []string{"src", "type", "x"}, Scope: "els", Names: []string{"script", "style"}}, {K: spec.KKeep, Names: []string{"script", "style"}}},
 		{{K: spec.KNew}, {K: spec.KStdURLs}, {K: spec.KRewrite, Check: "proxy"}, {K: spec.KAllowElements, Names: []string{"script", "style", "b", "img"}}, {K: spec.KAllowAttrs, Attrs: []string{"src", "href", "type"}, Scope: "els", Names: []string{"script", "style", "img"}},
 			{K: spec.KAllowAttrs, Attrs: []string{"src"}, Scope: "global"}, {K: spec.KSwitch, Names: []string{spec.SwCrossOrigin}, B: true}},
